@@ -12,7 +12,7 @@ SECP_P = 0xfffffffffffffffffffffffffffffffffffffffffffffffffffffffefffffc2f
 SECP_N = 0xfffffffffffffffffffffffffffffffebaaedce6af48a03bbfd25e8cd0364141
 
 def _tab(ex):
-    return ex.__dict__.setdefault('bigtab', {})
+    return ex.pstate.setdefault('bigtab', {})
 
 def bget(ex, p):
     """value of *big.Int at p: (val, maxbytes)"""
@@ -165,7 +165,7 @@ class Curve:
         self.name, self.p, self.n = name, p, n
 
 def _singleton(ex, key, mk):
-    t = ex.__dict__.setdefault('singletons', {})
+    t = ex.pstate.setdefault('singletons', {})
     if key not in t:
         t[key] = mk()
     return t[key]
